@@ -1,5 +1,6 @@
 import ZmqVerif.Lemmas.WorldMaps
 import ZmqVerif.Spec.Compat
+import ZmqVerif.Lemmas.WorldHandshake
 /-!
 # C04 — the handshake admits exactly the well-formed, RFC-compatible peers
 
@@ -160,5 +161,41 @@ theorem C04_reject_no_effect (w : World) (sid pid : Nat) (s : Socket) (rd : Rd) 
 /-- non-vacuity: REQ admits a REP peer announcing an identity and rejects a PUB peer -/
 example : ∃ r, admitPeer .req [(kSocketType, SockType.rep.name), (kIdentity, [1, 2])] 0 = .ok r := ⟨_, rfl⟩
 example : admitPeer .req [(kSocketType, SockType.pub.name)] 0 = .error .other := rfl
+
+/-! ### the handshake future against the connection's byte stream (only-if direction, every segmentation) -/
+
+/-- **Admitted only if the bytes say so.**  `HS t total stage rd ps` — the handshake invariant: `total`, the decode (C02's
+`run`) of the connection's WHOLE byte stream so far, is exactly what the handshake has consumed up to its present
+stage (nothing; a greeting of an acceptable version; that and a READY whose properties `admitPeer` accepts under
+`ident`) followed by what its reader still has in front of it.  One poll of the future keeps it — for every stage,
+segmentation, back-pressure or write error, SUB's re-announcement included — and if the poll completes with
+`Ok(identity)` the stream BEGINS with an acceptable greeting and an admissible READY (`Admitted`), whatever came
+in whichever pieces over however many polls.  (`C04_admit_iff` says what `admitPeer` accepts.) -/
+theorem C04_world_handshake_poll (fuel : Nat) (w : World) (sid pid : Nat) (stage : AStage) (rd : Rd) (wr : Wr)
+    (s : Socket) (hs : getSock w sid = some s) (total : RunOut) (hinv : HS s.typ total stage rd w.pipes)
+    (p : Nat) (hpipe : rd.pipe = p) (w' : World) (f' : FutSt) (o : POut)
+    (h : attachPoll fuel w sid pid stage rd wr = (w', f', o)) :
+    match (generalizing := false) f', o with
+    | .attach _ _ stage' rd' _, .pending => rd'.pipe = p ∧ HS s.typ total stage' rd' w'.pipes
+    | _, .ready (.okId ident) => Admitted s.typ total ident
+    | _, .ready (.err _) => True
+    | _, _ => False :=
+  attachPoll_spec fuel w sid pid stage rd wr s hs total hinv p hpipe w' f' o h
+
+/-- the invariant holds when the future is created (a fresh reader on the pipe, whatever bytes already wait) … -/
+theorem C04_world_handshake_init (t : SockType) (ps : Pipes) (p : Nat) (st : SendSt) :
+    HS t (run Dec.init (inbufOf ps p)) (.sendGreeting st) { pipe := p } ps := by
+  simp [HS, Rd.rem]
+
+/-- … is kept when bytes arrive on the pipe (for the extended stream) … -/
+theorem C04_world_handshake_reveal {t : SockType} {total : RunOut} {stage : AStage} {rd : Rd} {ps ps' : Pipes} (x : Bytes)
+    (h : HS t total stage rd ps) (hin : inbufOf ps' rd.pipe = inbufOf ps rd.pipe ++ x) :
+    HS t (total.extend x) stage rd ps' :=
+  h.reveal x hin
+
+/-- … and by everything that leaves the bytes waiting on this pipe alone (any other socket's or pipe's activity) -/
+theorem C04_world_handshake_frame {t : SockType} {total : RunOut} {stage : AStage} {rd : Rd} {ps ps' : Pipes}
+    (h : HS t total stage rd ps) (hf : inbufOf ps' rd.pipe = inbufOf ps rd.pipe) : HS t total stage rd ps' :=
+  h.frame hf
 
 end Zmq.C04
